@@ -31,8 +31,9 @@ Theorem C06_epoch_monotone_step : forall wb ls l h' id x x',
   r_ver x <= r_ver x' /\ r_confver x <= r_confver x' /\ r_term x <= r_term x'.
 Proof. exact c_epoch_step. Qed.
 
-(* over a whole execution, while the id stays served: version and conf_ver *)
-Theorem C06_versions_monotone_per_id : forall wb ls1 ls2 id x x',
+(* over a whole execution, WHILE THE ID STAYS SERVED (the hypothesis `always_served`; without it the clause is false for the
+   code, see C06_epochs_monotone_across_displacement_refuted below): version and conf_ver *)
+Theorem C06_versions_monotone_per_id_partial : forall wb ls1 ls2 id x x',
   always_served id (reach wb ls1) ls2 ->
   get_region (h_cache (reach wb ls1)) id = Some x ->
   get_region (h_cache (exec hl_step (reach wb ls1) ls2)) id = Some x' ->
@@ -42,12 +43,32 @@ Proof. intros. destruct (c_epochs_chain wb ls1 ls2 id x x') as (A & B & _); auto
 (* ... and the raft term, for any mix of heartbeats with and without a reported term (this was
    C06_term_monotone_per_id_partial with the hypothesis "every heartbeat reports a term"; the full clause was refuted
    by the terms 5, 0, 3 before the repair) *)
-Theorem C06_term_monotone_per_id : forall wb ls1 ls2 id x x',
+Theorem C06_term_monotone_per_id_partial : forall wb ls1 ls2 id x x',
   always_served id (reach wb ls1) ls2 ->
   get_region (h_cache (reach wb ls1)) id = Some x ->
   get_region (h_cache (exec hl_step (reach wb ls1) ls2)) id = Some x' ->
   r_term x <= r_term x'.
 Proof. intros. destruct (c_epochs_chain wb ls1 ls2 id x x') as (_ & _ & C); auto. Qed.
+
+(* a reported term that PD acknowledged is remembered: after a heartbeat with a reported term was answered without an error -
+   at once (nothing else changed: since /repo's repair a higher term alone is a reason to write the cache) or by its locked
+   section - the served term of its id is at least that term; with C06_precheck_is_stale the heartbeat of the leader of an older
+   term is rejected from then on.  Before the repair: term 6, then term 8 (idle region, same leader) answered OK but not
+   remembered, then the delayed term-7 heartbeat of another peer accepted *)
+Theorem C06_acknowledged_term_is_remembered : forall wb ls t r,
+  (forall h', begin (reach wb ls) t r = (h', HOk) ->
+     exists x, get_region (h_cache h') (r_id r) = Some x /\ r_term r <= r_term x) /\
+  (forall fl h' res, th_get (h_threads (reach wb ls)) t = Some (PLock r fl) -> 0 < r_term r ->
+     step (reach wb ls) t = (h', res) -> res <> HErr ->
+     exists x, get_region (h_cache h') (r_id r) = Some x /\ r_term r <= r_term x).
+Proof. exact c_ack_term. Qed.
+
+(* across a displacement the clause is false (finding, KNOWN_FINDINGS.txt): a region displaced from the cache by a split child
+   that reports first leaves no memory of its epoch and term; a delayed heartbeat of it over keys whose present owner has not
+   reported yet is accepted, and the id is served again with version 2 / term 6 after version 4 / term 7 *)
+Definition C06_epochs_monotone_across_displacement : Prop := epochs_monotone_across_displacement.
+Theorem C06_epochs_monotone_across_displacement_refuted : ~ C06_epochs_monotone_across_displacement.
+Proof. exact epochs_monotone_across_displacement_refuted_pf. Qed.
 
 (* the old counterexample as a regression case: the term-less heartbeat keeps term 5, the heartbeat with term 3 is rejected *)
 Example C06_term_gap_regression :
@@ -147,8 +168,10 @@ Proof. vm_compute. auto. Qed.
 
 Print Assumptions C06_no_overlap.
 Print Assumptions C06_epoch_monotone_step.
-Print Assumptions C06_versions_monotone_per_id.
-Print Assumptions C06_term_monotone_per_id.
+Print Assumptions C06_versions_monotone_per_id_partial.
+Print Assumptions C06_term_monotone_per_id_partial.
+Print Assumptions C06_epochs_monotone_across_displacement_refuted.
+Print Assumptions C06_acknowledged_term_is_remembered.
 Print Assumptions C06_precheck_is_stale.
 Print Assumptions C06_stale_heartbeat_rejected_unchanged_first.
 Print Assumptions C06_stale_heartbeat_rejected_unchanged_locked.
